@@ -444,7 +444,14 @@ func namedStoreRule(c *Ctx, r *Report, rule string) {
 		for _, ci := range CallsIn(fn, true) {
 			g := ci.Common().StaticCallee()
 			if g == nil {
+				// the segment-level writers through the interface: field.SetValue
+				if ci.Common().IsInvoke() && ci.Common().Method.Name() == "SetValue" && namedOf(ci.Common().Value.Type()) == c.Named("", "field") {
+					r.Check(fn == nsf, rule, c.FnName(fn), "named store field.SetValue", c.Pos(ci.Pos()), "in normalizeSetField", "a normalize function stores a setting through a path segment of its own making, without going through normalizeSetField: names from that source are not split at the separator, not classified as name or index by the path parser, and duplicates are not detected")
+				}
 				continue
+			}
+			if g.Name() == "SetValue" && g != setValue && (recvName(g) == "namedField" || recvName(g) == "idxField") {
+				r.Check(fn == nsf, rule, c.FnName(fn), "named store "+recvName(g)+".SetValue", c.Pos(ci.Pos()), "in normalizeSetField", "a normalize function stores a setting through a path segment of its own making ("+recvName(g)+"), without going through normalizeSetField: names from that source are not split at the separator, not classified as name or index by the path parser, and duplicates are not detected")
 			}
 			if g == setValue || g == fset {
 				r.Check(fn == nsf, rule, c.FnName(fn), "named store "+g.Name(), c.Pos(ci.Pos()), "in normalizeSetField", "a normalize function stores a named setting without going through normalizeSetField: names from that source are not split at the separator and duplicates are not detected")
